@@ -1,4 +1,5 @@
 import ScVerif.C20.VendingLemmas
+import ScVerif.C20.VendingCode
 /-!
 # C20 — property theorems, Vending
 
@@ -158,6 +159,52 @@ theorem C20_dispense_missing_quantity (inv : Inventory) (name : String) :
 theorem C20_dispense_req (inv : Inventory) (name : String) (q : Qty) :
     dispenseReq inv name (some q) = dispense inv name q := by
   unfold dispenseReq dispense; split <;> rfl
+
+/-! ## the interceptor as written (partial writes, `proto.Reset` + `proto.Merge` on the error path) -/
+
+/-- **The code's shape refines the all-or-nothing description**: `DispenseInstantly` as written —
+`updateStock` assigning `used` before it tries the conversion for `remaining`, the error path restoring
+the old value with `proto.Reset` + `proto.Merge`, the mask-less write storing the intercepted message in
+either case — equals `dispenseReq` for every inventory, consumable and quantity.  Hence every theorem
+above about `dispense` / `dispenseReq` / `run` holds for the code's shape (which is what the driver runs). -/
+theorem C20_dispense_code_refines (inv : Inventory) (name : String) (q : Option Qty) :
+    dispenseReqCode inv name q = dispenseReq inv name q :=
+  dispenseReqCode_eq inv name q
+
+/-- **A dispense that errors commits nothing**: whenever `updateStock` reports an error — on its first
+or its second conversion, i.e. also after it has already written `used` — the intercepted message is
+exactly the old stock: every field, for every old stock (any subset of used/remaining present, any
+units and categories, `used.amount = 0` included) and every quantity. -/
+theorem C20_dispense_error_commits_nothing (q : Qty) (old : Stock)
+    (herr : (updateStockCode q old emptyStock).2 = false) :
+    intercept true q old emptyStock = (old, false) := by
+  unfold intercept
+  generalize updateStockCode q old emptyStock = out at herr
+  obtain ⟨dst, b⟩ := out
+  simp only at herr
+  subst herr
+  simp [mergeStock_empty]
+
+/-- … and through the collection: the inventory is the same list and the error is reported. -/
+theorem C20_dispense_error_inventory (inv : Inventory) (name : String) (q : Qty) (st : Stock)
+    (hn : name ≠ "") (hl : lookup name inv = some st)
+    (herr : (updateStockCode q st emptyStock).2 = false) :
+    dispenseCode inv name q = (inv, .conversionError) := by
+  simp [dispenseCode, hn, hl, C20_dispense_error_commits_nothing q st herr, set_same hl]
+
+/-- **the `proto.Reset` on the error path is necessary**: merging the old value into the half-written
+message keeps the freshly computed `used.amount` when the old one is zero (proto3 merge skips
+unpopulated scalars) — used in litres at 0, remaining in kilograms, 2 m³ dispensed: the call reports
+the conversion error for `remaining` and yet `used` would become 2000 l. -/
+theorem C20_dispense_error_needs_reset :
+    ∃ (q : Qty) (old : Stock), (updateStockCode q old emptyStock).2 = false ∧
+      (intercept false q old emptyStock).1 ≠ old ∧ (intercept true q old emptyStock).1 = old :=
+  ⟨⟨4, 2⟩, { used := some ⟨3, 0⟩, remaining := some ⟨6, 5⟩ }, by decide +kernel, by decide +kernel, by decide +kernel⟩
+
+/-- the second-conversion error is reachable with a non-zero `used` as well (then even the merge alone
+would restore it; the theorem above does not depend on that) -/
+example : (updateStockCode ⟨4, 2⟩ { used := some ⟨3, 7⟩, remaining := some ⟨6, 5⟩ } emptyStock)
+    = ({ used := some ⟨3, 2007⟩, remaining := none }, false) := by decide +kernel
 
 /-- Dispense touches only the named record. -/
 theorem C20_dispense_frame (inv : Inventory) (name m : String) (q : Qty) (h : m ≠ name) :
